@@ -32,3 +32,8 @@ def c01(ctx):
 @register("C20")
 def c20(ctx):
     return evalfam.check_c20(ctx)
+
+
+@register("C02")
+def c02(ctx):
+    return evalfam.check_c02(ctx)
